@@ -355,6 +355,11 @@ def run(spec):
     if spec.get("reuse_grad_buffer"):
         base["reuse_grad_buffer"] = True
         out.count("problems_with_reused_gradient_buffer")
+    if int(P.spec["seed"]) % 5 == 4:
+        # the run and every restart traced through the user's logger (DEBUG level, or never configured below WARNING) at a verbosity at
+        # which every routine reports: diagnostics must not evaluate anything
+        base.update(logger=[True, "WARNING"][int(P.spec["seed"]) // 5 % 2], iprint=int([99, 101, 1000][int(P.spec["seed"]) // 10 % 3]))
+        out.count("problems_traced_through_a_logger")
     if spec.get("multi_scale"):
         base["gtol"] = 0.0
         out.count("problems_with_variables_on_length_scales_1e-8_to_1e16")
@@ -606,6 +611,14 @@ def run(spec):
                             f"state gives iterate {rs.result.nit} = {np.asarray(rs.result.x).tolist()} but the uninterrupted run has iterate "
                             f"{want.result.nit} = {np.asarray(want.result.x).tolist()} (rel. diff {e:.3e})", **tags)
                 break
+            if e <= 1e-12 and rs.result.nit == want.result.nit and int(rs.result.nfev) != int(want.result.nfev) and "scaler" not in base:
+                # the same iterate to twelve digits, hence the same sequence of trial steps: the recovery must have cost the same number of
+                # objective evaluations as the uninterrupted run (a restart evaluates nothing at its start point: value and gradient
+                # come with the state)
+                out.violate("recovery_differs_from_uninterrupted_run", f"{name}: crash at objective call {c} (callback #{j} kept, nit={k}); the restart from the retained "
+                            f"state reaches the same iterate {rs.result.nit} but reports nfev={rs.result.nfev} where the uninterrupted run has {want.result.nfev}", **tags)
+                break
+            out.count("recoveries_compared_for_their_evaluation_count")
             if rec["snap"]["sk"] is not None and rec["snap"]["sk"].shape[0] >= 1:
                 keys.add(f"{P.spec['family']}/{P.spec['seed']}/{spec['maxcor']}/{k}/{c}")
         if out.violations:
